@@ -275,6 +275,13 @@ def gen_layout(r, nops):
     tys = '%&!#$'
     dead = False
     in_sub = r.random() < 0.3
+    # a label local to the reading procedure: "the first DATA statement at or after that label" is the first one after the
+    # procedure's text, i.e. the first item of the afterproc zone
+    sub_pos = 0
+    for s_, z_ in zip(slots, zones):
+        if z_ != 'afterproc' and s_[0] in ('data', 'labeldata'):
+            sub_pos += len(ref_tokenize(', '.join(datas[s_[-1]])))
+    local_label = 'zsl9' if (in_sub and r.random() < 0.7) else None
     for _ in range(nops):
         if dead:
             break
@@ -326,6 +333,10 @@ def gen_layout(r, nops):
                 ops.append(f'RESTORE {l}')
                 cur = label_pos[l]
                 expect.append(('restore',))
+            elif local_label:
+                ops.append(f'RESTORE {local_label}')
+                cur = sub_pos
+                expect.append(('restore',))
     body = '\n'.join(ops)
     lines = before[:]
     if in_sub:
@@ -336,7 +347,7 @@ def gen_layout(r, nops):
     lines += after
     lines.append('SUB zother\nzq = 1\nEND SUB')
     if in_sub:
-        lines.append('SUB zreader\n' + body + '\nEND SUB')
+        lines.append('SUB zreader\n' + (f'{local_label}:\n' if local_label else '') + body + '\nEND SUB')
     lines += afterproc
     text = '\n'.join(lines) + '\n'
     key = f"{[s[0] for s in slots]}|{zones}|{len(ops)}|{in_sub}"
